@@ -10,7 +10,8 @@ callables, printing); the functions called are the model's.
   sel  <start> <docs> <steps>               -> ids of the last step ("err" = IndexError)
       start = "doc i" | "node id" | "res" | "fn"
       docs  = "k tree…"            tree = "T id name nattrs attr… nchildren tree…"
-      steps = "k step…"            step = "S deep roots nq query…" | "G query"
+      steps = "k step…"            step = "S deep roots nq query…" | "G query" | "W entry-query"
+  prog <docs> <k statement…>                -> see `runProg`
 -/
 
 abbrev P (α : Type) := List String → Option (α × List String)
@@ -41,7 +42,7 @@ partial def pMany {α : Type} (p : P α) : Nat → P (List α)
     let (xs, ts) ← pMany p n ts
     pure (x :: xs, ts)
 
-partial def pBExp : P BExp
+partial def pBTerm : P BTerm
   | "tt" :: r => some (.tt, r)
   | "ff" :: r => some (.ff, r)
   | "p" :: r => do let (op, r) ← pOp r; let (v, r) ← pVal r; pure (.prim op v, r)
@@ -49,44 +50,57 @@ partial def pBExp : P BExp
     let (op, r) ← pOp r; let (v, r) ← pVal r
     match v with | .str s => pure (.primI op s, r) | _ => none
   | "o" :: r => do let (k, r) ← pNat r; let (c, r) ← pNat r; pure (.opq k (c != 0), r)
-  | "and" :: r => do let (a, r) ← pBExp r; let (b, r) ← pBExp r; pure (.and a b, r)
-  | "or" :: r => do let (a, r) ← pBExp r; let (b, r) ← pBExp r; pure (.or a b, r)
-  | "not" :: r => do let (a, r) ← pBExp r; pure (.not a, r)
+  | "and" :: r => do let (a, r) ← pBTerm r; let (b, r) ← pBTerm r; pure (.and a b, r)
+  | "or" :: r => do let (a, r) ← pBTerm r; let (b, r) ← pBTerm r; pure (.or a b, r)
+  | "not" :: r => do let (a, r) ← pBTerm r; pure (.not a, r)
+  | "ref" :: r => do let (i, r) ← pNat r; pure (.ref i, r)
   | _ => none
 
-def pNameQ : P NameQ
+/-- the combinations built so far by a program (`prog` requests); empty for the other requests -/
+structure Built where
+  bs : List BExp := []
+  es : List EQ := []
+
+/-- a Boolean as written: the model's `BTerm.resolve` looks up the names -/
+def pBExp (σ : Built) : P BExp := fun ts => do
+  let (t, r) ← pBTerm ts
+  let b ← t.resolve σ.bs
+  pure (b, r)
+
+def pNameQ (σ : Built) : P NameQ
   | "any" :: r => some (.any, r)
   | "lit" :: r => do let (v, r) ← pVal r; pure (.lit v, r)
-  | "b" :: r => do let (b, r) ← pBExp r; pure (.bexp b, r)
+  | "b" :: r => do let (b, r) ← pBExp σ r; pure (.bexp b, r)
   | "f" :: r => do let (k, r) ← pNat r; pure (.fn k, r)
   | _ => none
 
-def pAttrQ : P AttrQ
+def pAttrQ (σ : Built) : P AttrQ
   | "lit" :: r => do let (v, r) ← pVal r; pure (.lit v, r)
-  | "b" :: r => do let (b, r) ← pBExp r; pure (.bexp b, r)
+  | "b" :: r => do let (b, r) ← pBExp σ r; pure (.bexp b, r)
   | "f" :: r => do let (k, r) ← pNat r; pure (.fn k, r)
   | _ => none
 
-partial def pEQ : P EQ
-  | "anyA" :: r => do let (a, r) ← pAttrQ r; pure (.anyAttr a, r)
-  | "allA" :: r => do let (a, r) ← pAttrQ r; pure (.allAttr a, r)
+partial def pEQ (σ : Built) : P EQ
+  | "anyA" :: r => do let (a, r) ← pAttrQ σ r; pure (.anyAttr a, r)
+  | "allA" :: r => do let (a, r) ← pAttrQ σ r; pure (.allAttr a, r)
   | "child" :: r => do
-    let (n, r) ← pNameQ r
+    let (n, r) ← pNameQ σ r
     let (k, r) ← pNat r
     if k = 0 then pure (.child n none, r)
-    else do let (a, r) ← pAttrQ r; pure (.child n (some a), r)
-  | "eand" :: r => do let (a, r) ← pEQ r; let (b, r) ← pEQ r; pure (.and a b, r)
-  | "eor" :: r => do let (a, r) ← pEQ r; let (b, r) ← pEQ r; pure (.or a b, r)
-  | "enot" :: r => do let (a, r) ← pEQ r; pure (.not a, r)
+    else do let (a, r) ← pAttrQ σ r; pure (.child n (some a), r)
+  | "eand" :: r => do let (a, r) ← pEQ σ r; let (b, r) ← pEQ σ r; pure (.and a b, r)
+  | "eor" :: r => do let (a, r) ← pEQ σ r; let (b, r) ← pEQ σ r; pure (.or a b, r)
+  | "enot" :: r => do let (a, r) ← pEQ σ r; pure (.not a, r)
+  | "eref" :: r => do let (i, r) ← pNat r; let e ← σ.es[i]?; pure (e, r)     -- an entry query built before
   | _ => none
 
-def pQuery : P Query
-  | "qn" :: r => do let (n, r) ← pNameQ r; pure (.name n, r)
+def pQuery (σ : Built) : P Query
+  | "qn" :: r => do let (n, r) ← pNameQ σ r; pure (.name n, r)
   | "qt" :: r => do
-    let (n, r) ← pNameQ r; let (k, r) ← pNat r; let (as, r) ← pMany pAttrQ k r
+    let (n, r) ← pNameQ σ r; let (k, r) ← pNat r; let (as, r) ← pMany (pAttrQ σ) k r
     pure (.tuple n as, r)
-  | "qte" :: r => do let (n, r) ← pNameQ r; let (e, r) ← pEQ r; pure (.tupleE n e, r)
-  | "qe" :: r => do let (e, r) ← pEQ r; pure (.entry e, r)
+  | "qte" :: r => do let (n, r) ← pNameQ σ r; let (e, r) ← pEQ σ r; pure (.tupleE n e, r)
+  | "qe" :: r => do let (e, r) ← pEQ σ r; pure (.entry e, r)
   | _ => none
 
 partial def pTree : P Tree
@@ -103,13 +117,15 @@ partial def pTree : P Tree
 inductive Step where
   | sel (deep roots : Bool) (qs : List Query)
   | get (q : Query)
+  | whr (q : EQ)
 
-def pStep : P Step
+def pStep (σ : Built) : P Step
   | "S" :: r => do
     let (d, r) ← pNat r; let (ro, r) ← pNat r; let (k, r) ← pNat r
-    let (qs, r) ← pMany pQuery k r
+    let (qs, r) ← pMany (pQuery σ) k r
     pure (.sel (d != 0) (ro != 0) qs, r)
-  | "G" :: r => do let (q, r) ← pQuery r; pure (.get q, r)
+  | "G" :: r => do let (q, r) ← pQuery σ r; pure (.get q, r)
+  | "W" :: r => do let (q, r) ← pEQ σ r; pure (.whr q, r)
   | _ => none
 
 def toks (f : String) : List String := (f.splitOn " ").filter (· ≠ "")
@@ -150,7 +166,10 @@ def stepNodes (s : St) (st : Step) : Option (List Node) :=
   | .sel deep _ qs, .fn ns => selectNodes opqEnv qs ns deep
   | .get q, .entry e => some (entryGetitem opqEnv e q)
   | .get q, .result ch => some (resultGetitem opqEnv ch q)
+  | .whr q, .entry e => some (entryWhere opqEnv e q)
+  | .whr q, .result ch => some (resultWhere opqEnv ch q)
   | .get _, .fn _ => none
+  | .whr _, .fn _ => none
 
 def stepFinal (s : St) (st : Step) : Option (Option (List Nat)) :=
   match st, s with
@@ -161,7 +180,10 @@ def stepFinal (s : St) (st : Step) : Option (Option (List Nat)) :=
   | .sel deep roots qs, .fn ns => some (select opqEnv qs ns deep roots)
   | .get q, .entry e => some (some ((entryGetitem opqEnv e q).map Node.id))
   | .get q, .result ch => some (some ((resultGetitem opqEnv ch q).map Node.id))
+  | .whr q, .entry e => some (some ((entryWhere opqEnv e q).map Node.id))
+  | .whr q, .result ch => some (some ((resultWhere opqEnv ch q).map Node.id))
   | .get _, .fn _ => none
+  | .whr _, .fn _ => none
 
 def runSteps : St → List Step → String
   | _, [] => "bad-op"
@@ -178,34 +200,82 @@ def runSteps : St → List Step → String
       | some ns => runSteps (.result ns) rest
       | none => "err"
 
+/-- where a pipeline starts: `doc i` | `node id` | `res` | `fn` -/
+def startState (docs : List Tree) : List String → Option St
+  | ["doc", i] => do let i ← i.toNat?; let t ← docs[i]?; pure (.entry (top t))
+  | ["node", i] => do                   -- an inner entry, found by its identity
+    let i ← i.toNat?
+    let n ← (flatten (docs.map top)).find? (fun n => n.id == i)
+    pure (.entry n)
+  | ["res"] => some (.result (docs.map top))
+  | ["fn"] => some (.fn (docs.map top))
+  | _ => none
+
+/-- a program: statements run in order, the combinations built so far are threaded through
+  LB <bterm>                    x_n := a Boolean (operands may be `ref i`)        (model: letB)
+  LE <eq>                       e_n := an entry query (operands may be `eref i`)
+  TB i k v…                     truth table of x_i: per value "<interp><compiled>"
+  TE i k id…                    truth table of e_i on the nodes with these identities
+  Q a b <steps>                 a pipeline started at `a b` ("doc 0", "node 7", "res -", "fn -")
+answers of TB / TE / Q joined by ';' -/
+partial def runProg (docs : List Tree) (σ : Built) (n : Nat) (ts : List String) (acc : List String) : Option (List String) :=
+  match n with
+  | 0 => if ts.isEmpty then some acc.reverse else none
+  | n + 1 =>
+    match ts with
+    | "LB" :: r => do
+      let (t, r) ← pBTerm r
+      let bs ← letB σ.bs t
+      runProg docs { σ with bs := bs } n r acc
+    | "LE" :: r => do
+      let (e, r) ← pEQ σ r
+      runProg docs { σ with es := σ.es ++ [e] } n r acc
+    | "TB" :: r => do
+      let (i, r) ← pNat r
+      let (vs, r) ← pCounted pVal r
+      let b ← σ.bs[i]?
+      let out := String.join (vs.map (fun v => showB (b.interp opqEnv v) ++ showB (b.compiled opqEnv v)))
+      runProg docs σ n r (out :: acc)
+    | "TE" :: r => do
+      let (i, r) ← pNat r
+      let (ids, r) ← pCounted pNat r
+      let e ← σ.es[i]?
+      let all := flatten (docs.map top)
+      let cells ← ids.mapM (fun i => (all.find? (fun n => n.id == i)).map (fun n => showB (e.eval opqEnv n)))
+      runProg docs σ n r (String.join cells :: acc)
+    | "Q" :: a :: b :: r => do
+      let st ← startState docs (if b = "-" then [a] else [a, b])
+      let (steps, r) ← pCounted (pStep σ) r
+      runProg docs σ n r (runSteps st steps :: acc)
+    | _ => none
+
 def handle (fs : List String) : String :=
   match fs with
   | ["bool", b, v] =>
-    match parseAll pBExp b, parseAll pVal v with
+    match parseAll (pBExp {}) b, parseAll pVal v with
     | some b, some v =>
       ",".intercalate [showB (b.interp opqEnv v), showB (b.compiled opqEnv v), showOut (b.evalC opqEnv v),
                        showB (b.nonRaising opqEnv v)]
     | _, _ => "bad-op"
   | ["sel", start, docs, steps] =>
-    match parseAll (pCounted pTree) docs, parseAll (pCounted pStep) steps with
+    match parseAll (pCounted pTree) docs, parseAll (pCounted (pStep {})) steps with
     | some docs, some steps =>
-      match toks start with
-      | ["doc", i] =>
-        match i.toNat? with
-        | some i => match docs[i]? with
-          | some t => runSteps (.entry (top t)) steps
-          | none => "bad-op"
-        | none => "bad-op"
-      | ["node", i] =>                       -- Entry.select / [] on an inner entry (found by its identity)
-        match i.toNat? with
-        | some i => match (flatten (docs.map top)).find? (fun n => n.id == i) with
-          | some n => runSteps (.entry n) steps
-          | none => "bad-op"
-        | none => "bad-op"
-      | ["res"] => runSteps (.result (docs.map top)) steps
-      | ["fn"] => runSteps (.fn (docs.map top)) steps
-      | _ => "bad-op"
+      match startState docs (toks start) with
+      | some st => runSteps st steps
+      | none => "bad-op"
     | _, _ => "bad-op"
+  | ["prog", docs, stmts] =>
+    match parseAll (pCounted pTree) docs with
+    | some docs =>
+      match toks stmts with
+      | k :: ts =>
+        match k.toNat? with
+        | some k => match runProg docs {} k ts [] with
+          | some outs => ";".intercalate outs
+          | none => "bad-op"
+        | none => "bad-op"
+      | [] => "bad-op"
+    | none => "bad-op"
   | _ => "bad-op"
 
 def main : IO Unit := serve handle
